@@ -641,9 +641,10 @@ class C08(fw.Property):
                   "wire statement); each listed cause ends the registration (same-token request, Reset of a confirmable notification, unsuccessful / last "
                   "notification, raising render, time-out, transport error, shutdown), with the Reset-of-NON case refuted by a witness (F15). The model is "
                   "tied to the code by a differential run of the real stack on scripted observer behaviour with complete traces compared.")
-    level_note = ("Token and strictly rising Observe numbers on the wire are proved over all histories (backlog FIFO invariant). PARTIAL: 'latest state "
-                  "sent' is proved for the lossy trigger future only, over histories it is checked by the oracle (C08:latest-not-sent) and the trace "
-                  "correspondence. Time-out is stated for the firing of the last retransmission timer, not derived from EAdvance. Not modelled: task garbage collection, "
+    level_note = ("Token / strictly rising Observe numbers on the wire and 'latest state sent' (idle task + nothing of the registration in the backlog => "
+                  "the last datagram on the wire carries the current resource version) are proved over all histories. For explicit responses the theorem "
+                  "says the last produced one is the last on the wire; that it is the last one passed is the loop-level lemma on the lossy future. "
+                  "PARTIAL: Time-out is stated for the firing of the last retransmission timer, not derived from EAdvance. Not modelled: task garbage collection, "
                   "No-Response, block-wise, multicast; observers are triggered in a script-chosen order. Trusted: the model's correspondence (sampled), virtual loop, harness codec.")
 
     # ------------------------------------------------------------------ generators (every choice from rng)
